@@ -285,13 +285,13 @@ func opSubscribe(r *Run, cl *clientState, idx int, op *Op) {
 	// wait until the subscription is registered (the goroutine parks at
 	// "subscriber.registered" after the sub.registered event)
 	for i := 0; i < 10000; i++ {
+		r.e.Point("client.poll") // park first (the new goroutine runs concurrently with this one)
 		r.mu.Lock()
 		reg := ex.subRegTs != 0
 		r.mu.Unlock()
 		if reg {
 			break
 		}
-		r.e.Point("client.poll")
 	}
 	r.logf("c%d subscribe %v registered at ts>%d", cl.id, pats, ex.subRegTs-1)
 	r.probe("subscriptions")
@@ -362,13 +362,16 @@ func opUnsubscribe(r *Run, cl *clientState, idx int, op *Op) {
 	ex.subCancel()
 	ex.subCancel = nil
 	for i := 0; i < 10000; i++ {
+		// park first: the cancelled Subscribe goroutine wakes without the scheduler and
+		// runs concurrently with this one; only after the next quiescence is "done or
+		// not" a deterministic fact
+		r.e.Point("client.poll")
 		r.mu.Lock()
 		d := ex.subDone
 		r.mu.Unlock()
 		if d {
 			break
 		}
-		r.e.Point("client.poll")
 	}
 	r.mu.Lock()
 	recv := append([]*pb.KV{}, ex.subRecv...)
